@@ -319,7 +319,7 @@ pub fn run(cfg: &Cfg) -> Report {
     {
         let sets: Vec<MSym> = observe(|| rust_dsymbols::generators::dset_generators::DSets::new(3, 8).map(|s| from_dset(&s)).collect::<Vec<_>>()).unwrap_or_default();
         let big: Vec<&MSym> = sets.iter().filter(|s| s.n >= 6 && s.is_complete_set() && s.ops_are_involutions() && s.far_ops_commute() && s.is_connected()).collect();
-        for k in 0..cfg.tier.pick(40_000, 120_000) {
+        for k in 0..cfg.tier.pick(40_000, 400_000) {
             if big.is_empty() {
                 break;
             }
